@@ -1,4 +1,4 @@
-/- ymdriver pipe / pipe-spec: runs the pipeline model (Model/Pipeline.lean) on a stream of program lines.
+/- ymdriver_pipe pipe / pipe-spec (lean/Driver/Main_pipe.lean): runs the pipeline model (Model/Pipeline.lean) on a stream of program lines.
 
    One output line per input line (same format as harness/pipe.cpp).  Line format (tokens separated by one blank):
 
